@@ -420,6 +420,13 @@ def mutation_twin(ctx, n):
                         elif isinstance(v, tuple):
                             v[1].append('more')
                 pause(r)
+                if r.random() < 0.25:
+                    # the recording is aborted, written to once more (item assignment) and saved after all - whatever the wrapped
+                    # cassette makes of that history, the wrapper makes the same of it
+                    cassette.abort_recording(rec)
+                    pause(r)
+                    rec['after-abort%d' % c] = ['written after the abort']
+                    pause(r)
                 cassette.save_recording(rec)
                 if r.random() < 0.5:
                     # an interception that finishes on another thread after the operation returned still writes into the recording
@@ -505,6 +512,48 @@ def backlog(ctx, n):
         if stalled_producer:
             ctx.violation('a caller waited for the stalled wrapped storage', wit)
         judge(ctx, w, store, None, [], getattr(store, 'closed_with', None), wit, None)
+
+
+def clock_jump_during_close(ctx):
+    """The wall clock is stepped forward (NTP correction, a resumed VM) while close() waits for a slow storage to take the backlog: the
+    timeout of close() is a duration, not a date - everything requested before close is applied when it returns."""
+    import sys
+    import time as _time
+    from playback.tape_cassettes.asynchronous.async_record_only_tape_cassette import AsyncRecordOnlyTapeCassette
+    store = make_spy_store(lambda: _time.sleep(0.12))
+    w = {'producers': 1, 'recordings': 1, 'writes': 5}
+    cas = AsyncRecordOnlyTapeCassette(store, flush_interval=0.01, timeout_on_close=300)
+    cas.start()
+    recs = {}
+    for ops in workload_ops(w):
+        run_producer(cas, ops, recs)
+    real_time = _time.time
+    offset = [0.0]
+
+    def wall_clock():
+        return real_time() + offset[0]
+    # every name through which library code may read the wall clock: time.time itself and `from time import time` bindings
+    patched = [(_time, 'time')]
+    for name, mod in list(sys.modules.items()):
+        if name.startswith('playback') and mod is not None and getattr(mod, 'time', None) is real_time:
+            patched.append((mod, 'time'))
+    for mod, attr in patched:
+        setattr(mod, attr, wall_clock)
+
+    def jump():
+        _time.sleep(0.3)
+        offset[0] = 86400.0 * 3
+    t = threading.Thread(target=jump)
+    t.start()
+    try:
+        cas.close()
+    finally:
+        for mod, attr in patched:
+            setattr(mod, attr, real_time)
+        t.join()
+    ctx.case(('clock_jump_during_close',), nontrivial=True)
+    ctx.count('closes_with_a_wall_clock_jump')
+    judge(ctx, w, store, None, [], getattr(store, 'closed_with', None), {'clock_jump_during_close': True, 'workload': w, 'fail_at': None}, None)
 
 
 def steady_pace(ctx, n_writes):
@@ -613,12 +662,15 @@ def run(ctx):
     mutation_twin(ctx, ctx.budget(60, 3000))
     if ctx.shard == 0:
         backlog(ctx, 2 if ctx.quick else 12)
+        clock_jump_during_close(ctx)
         steady_pace(ctx, 1300 if ctx.quick else 2500)
     if not ctx.counters.get('operations_checked'):
         ctx.inconclusive('no operation was checked')
 
 
 def replay(ctx, wit):
+    if wit.get('clock_jump_during_close'):
+        return clock_jump_during_close(ctx)
     if wit.get('mutation_twin') or wit.get('backlog'):
         print('real-thread witness, re-run the check')
         return
